@@ -7,7 +7,9 @@
 (*    is itself a command-line argument]                                     *)
 (* cls: "dir" | "xml" (well-formed) | "xmlbad" (malformed) | "xmlent" (uses  *)
 (*      the entity &foo;) | "json" | "html" | "txtjson" (JSON in a .txt      *)
-(*      file) | "noext" | "dangling" (unreadable: dangling symlink, .xml)    *)
+(*      file) | "noext" (XML in a file without a registered media type: no   *)
+(*      extension, or an unknown one) | "dangling" (unreadable: dangling     *)
+(*      symlink, .xml)                                                       *)
 (*      | "linkxml" (a symbolic link named *.xml to a well-formed XML file   *)
 (*      elsewhere: an input like any other) | "stdinxml" (the argument "-":  *)
 (*      well-formed XML on standard input; needs -t, never prefixed) | "svg" *)
@@ -41,7 +43,9 @@ ParseType(fl, cls) == IF fl.t # "" THEN fl.t ELSE ExtType(cls)
 Parses(fl, cls, pt) ==
   CASE cls \in {"dangling", "missing"} -> "no"
     [] pt = "none" -> "no"
-    [] cls \in {"xml", "linkxml", "stdinxml", "svg"} -> IF pt = "xml" THEN "yes" ELSE "unk"
+    \* ("noext": well-formed XML in a file whose name has no extension, or one no media type is registered for - without -t it
+    \*  has no type (the case above), with -t xml it is an input like any other)
+    [] cls \in {"xml", "noext", "linkxml", "stdinxml", "svg"} -> IF pt = "xml" THEN "yes" ELSE "unk"
     [] cls = "xmlbad" -> IF pt = "xml" THEN (IF fl.u THEN "unk" ELSE "no") ELSE "unk"      \* what a lenient decoder makes of it is not specified
     [] cls = "xmlent" -> IF pt = "xml" THEN (IF fl.e \/ fl.u THEN "yes" ELSE "no") ELSE "unk" \* lenient: the reference stays literal unless -e binds it
     [] cls \in {"json", "txtjson"} -> IF pt = "json" THEN "yes" ELSE "unk"
